@@ -1,7 +1,37 @@
-From Coq Require Import List NArith ZArith Bool.
-From Stam Require Import Base.Tac Model.Json Proofs.Json Props.C17.
+From Coq Require Import List NArith ZArith Bool String.
+From Stam Require Import Base.Tac Model.Json Model.WebAnno Spec.WebAnnoSpec Proofs.Json Proofs.WebAnno Props.C17.
+Import ListNotations.
 Check (C17_unescape_escape : forall s : list N, unescape (escape s) = Some s).
 Check (C17_parse_render : forall j, wf_json j = true -> parse_json (render j) = Some j).
+Check (C17_export_is_intended_tree : forall st c a av j,
+  get_ann st a = Some av ->
+  Known_C17_config_chars c = false ->
+  Known_C17_nonfinite av = false ->
+  Known_C17_nested_unexportable av = false ->
+  forallb (fun d => value_dates_plain (d_val d)) (a_data av) = true ->
+  ranges_ok (a_target av) = true ->
+  export_ast st c a = Some j ->
+  exists s, to_webannotation st c a = Some s /\ parse_json s = Some j /\ is_object j = true).
+Check (C17_targets : forall st c a av j,
+  get_ann st a = Some av -> export_ast st c a = Some j ->
+  exists pre tj, j = JObj (pre ++ [(LIT "target", tj)])
+                 /\ abs_targets st c (a_target av) = Some (targets tj)).
+Check (C17_data : forall st c a av j d,
+  get_ann st a = Some av -> export_ast st c a = Some j -> In d (a_data av) ->
+  exists pre tj, j = JObj (pre ++ [(LIT "target", tj)]) /\
+    ((is_main d = true /\ In (pred_name c d, pred_json (d_val d)) pre)
+     \/ (is_main d = false /\ exists bm, In (LIT "body", JObj bm) pre /\ In (pred_name c d, pred_json (d_val d)) bm))).
+Check (C17_int_content : forall z, num_int (dec_Z z) = Some z).
 Print Assumptions C17_unescape_escape.
 Print Assumptions C17_parse_render.
 Print Assumptions C17_parse_tokens_of.
+Print Assumptions C17_export_is_intended_tree.
+Print Assumptions C17_targets.
+Print Assumptions C17_data.
+Print Assumptions C17_int_content.
+Print Assumptions C17_numbers_wellformed.
+Print Assumptions Known_C17_nonfinite_witness.
+Print Assumptions Known_C17_config_chars_witness.
+Print Assumptions Known_C17_nested_unexportable_witness.
+Print Assumptions Known_C17_duplicate_names_witness.
+Print Assumptions Known_C17_anonymous_target_witness.
